@@ -45,7 +45,7 @@ CRATE_NAME = "mila_verif_harness"
 CBMC_FLAGS = [
     "--no-malloc-may-fail", "--no-undefined-shift-check", "--no-signed-overflow-check",
     "--nan-check", "--no-self-loops-to-assumptions", "--no-pointer-primitive-check",
-    "--object-bits", "16", "--sat-solver", "cadical", "--slice-formula",
+    "--object-bits", "16", "--sat-solver", "cadical", "--slice-formula", "--verbosity", "8",
 ]
 
 ENV = dict(os.environ)
@@ -304,9 +304,12 @@ def run_cbmc(h, info, workdir):
     cmd += h.cbmc_args
     cmd += [goto, "--json-ui"]
     jpath = os.path.join(workdir, h.name + ".cbmc.json")
-    with open(jpath, "w") as jf:
+    epath = os.path.join(workdir, h.name + ".cbmc.err")
+    if os.path.exists("/usr/bin/time"):
+        cmd = ["/usr/bin/time", "-f", "MAXRSS_KB %M"] + cmd
+    with open(jpath, "w") as jf, open(epath, "w") as ef:
         try:
-            p = subprocess.Popen(cmd, stdout=jf, stderr=subprocess.STDOUT, preexec_fn=limit_mem(h.mem_gb))
+            p = subprocess.Popen(cmd, stdout=jf, stderr=ef, preexec_fn=limit_mem(h.mem_gb))
             try:
                 rc = p.wait(timeout=h.timeout)
             except subprocess.TimeoutExpired:
@@ -321,6 +324,13 @@ def run_cbmc(h, info, workdir):
             return res
     res["wall_s"] = time.time() - t0
     res["cbmc_rc"] = rc
+    try:
+        m = re.search(r"MAXRSS_KB (\d+)", open(epath).read())
+        if m:
+            res["peak_rss_mb"] = int(m.group(1)) // 1024
+        os.remove(epath)
+    except OSError:
+        pass
     try:
         data = json.load(open(jpath))
     except Exception as e:
@@ -341,8 +351,9 @@ def run_cbmc(h, info, workdir):
             errors.append(txt)
         m = re.match(r"(\d+) variables, (\d+) clauses", txt)
         if m:
-            stats["variables"] = stats.get("variables", 0) + int(m.group(1))
-            stats["clauses"] = stats.get("clauses", 0) + int(m.group(2))
+            stats["variables"] = max(stats.get("variables", 0), int(m.group(1)))
+            stats["clauses"] = max(stats.get("clauses", 0), int(m.group(2)))
+            stats["solver_calls"] = stats.get("solver_calls", 0) + 1
         m = re.match(r"Runtime (Solver|decision procedure|Symex|Convert SSA|Postprocess Equation): ([\d.e+-]+)s", txt)
         if m:
             key = "t_" + m.group(1).lower().replace(" ", "_")
@@ -686,7 +697,7 @@ def write_evidence(prop, tier, seed, t_start, harness_reports, build_s, violatio
                         "verdict": r["verdict"], "checks_decided": r["n_checks"],
                         "checks_in_mila_code": r["n_mila_checks"], "cbmc_wall_s": round(r["wall_s"], 1),
                         "unwind": r.get("unwind"), "unwindset": r.get("unwindset"),
-                        "sat": r.get("stats", {})})
+                        "peak_rss_mb": r.get("peak_rss_mb"), "sat": r.get("stats", {})})
     assumptions = sorted({a for r in harness_reports for a in r["assumptions"]})
     stubs = sorted({s for r in harness_reports for s in r.get("stubs", [])})
     ev = {
@@ -781,14 +792,16 @@ def main():
     running = {}
     with concurrent.futures.ThreadPoolExecutor(max_workers=args.jobs) as ex:
         while pending or running:
-            used = sum(h.mem_gb for h in running.values())
+            # admission by half the declared cap: caps are hard limits (RLIMIT_AS), typical peaks are
+            # far below them (evidence records peak_rss_mb per harness)
+            used = sum(h.mem_gb / 2 for h in running.values())
             started = False
             for h in list(pending):
-                if len(running) < args.jobs and (used + h.mem_gb <= mem_budget or not running):
+                if len(running) < args.jobs and (used + h.mem_gb / 2 <= mem_budget or not running):
                     fut = ex.submit(run_cbmc, h, info[h.name], workdir)
                     running[fut] = h
                     pending.remove(h)
-                    used += h.mem_gb
+                    used += h.mem_gb / 2
                     started = True
             if not running:
                 continue
@@ -798,7 +811,7 @@ def main():
                 h = running.pop(fut)
                 results[h.name] = fut.result()
                 r = results[h.name]
-                log(f"[{prop}]   {h.name}: {r['status']} {r['wall_s']:.1f}s {r['detail'][:200]}")
+                log(f"[{prop}]   {h.name}: {r['status']} {r['wall_s']:.1f}s rss={r.get('peak_rss_mb', '?')}MB {r['detail'][:200]}")
 
     known = load_known()
     reports, violations, errors, known_hits = [], 0, [], []
@@ -810,7 +823,7 @@ def main():
                "verdict": cl["verdict"], "n_checks": cl["n_checks"], "n_success": cl["n_success"],
                "n_mila_checks": cl["n_mila_checks"], "functions": cl["functions"], "wall_s": res["wall_s"],
                "stats": res.get("stats", {}), "unwind": res.get("unwind"), "unwindset": res.get("unwindset"),
-               "stubs": res.get("stubs", []), "covers_sat": cl["covers_sat"]}
+               "stubs": res.get("stubs", []), "covers_sat": cl["covers_sat"], "peak_rss_mb": res.get("peak_rss_mb")}
         for msg in cl["machinery"]:
             errors.append(f"{h.name}: {msg}")
         if cl["failures"]:
